@@ -5,7 +5,9 @@ from .. import shared
 from ..mutate import Mutant, in_func, delete_stmt, in_module
 from ..report import AnalysisError
 from ..srcmodel import unparse, norm, walk_no_nested, calls_in
-from .common import is_method_call, get_kw, inside_with_calling, parent_chain
+from . import tr
+from ..tracer import Tracer
+from .common import is_method_call, get_kw, inside_with_calling, parent_chain, only_reached_from
 
 PROP = 'C20'
 DECIDED = [
@@ -115,16 +117,20 @@ def r2(repo, run):
             else:
                 run.violation('C20.R2', w.fi, w.text(), 'write to the slot object %s itself, not to its per-thread attribute' % root, node=w.node)
             continue
+        allowed = {q for (q, r_) in EXEMPT if r_ == root}
+        moved = None
+        if (top.qualname, root) not in EXEMPT and allowed and only_reached_from(repo, top.qualname, allowed):
+            moved = sorted(allowed)[0]
         if w.kind.startswith('maybe-'):
-            key = (top.qualname, root)
+            key = (top.qualname, root) if moved is None else (moved, root)
             if key in EXEMPT:
                 run.ok('C20.R2', where, w.text(), 'possible alias of %s; exempt: %s' % (root, EXEMPT[key]))
             else:
                 run.info('C20.R2', where, w.text(), 'possible alias of shared %s (mixed definitions); not decided' % root)
             continue
-        key = (top.qualname, root)
+        key = (top.qualname, root) if moved is None else (moved, root)
         if key in EXEMPT:
-            run.ok('C20.R2', where, w.text(), 'exempt: ' + EXEMPT[key])
+            run.ok('C20.R2', where, w.text(), 'exempt: ' + EXEMPT[key] + ('' if moved is None else ' (private helper reached only from %s)' % moved))
         else:
             run.violation('C20.R2', w.fi, w.text(), 'write to process-shared state (%s %s) on a path that builds can reach: two threads building at the same time read / overwrite each other\'s value. Not a thread-local slot and not in the exemption table' % w.root, node=w.node)
     if n < 10:
@@ -132,68 +138,130 @@ def r2(repo, run):
     run.floors['C20.R2'] = 10
 
 
+def _in_finally(node):
+    prev = node
+    for par in parent_chain(node):
+        if isinstance(par, ast.Try) and any(prev is x for x in par.finalbody):
+            return True
+        prev = par
+    return False
+
+
+def _save_restore(repo, run, fi, slot, what):
+    """context manager / wrapper: slot := new ... (yield | call) ... slot := <value read from the slot before>, restored in finally"""
+    paths = tr.paths_of(repo, fi, follow_exceptions=False)
+    okp = 0
+    unknown = None
+    for p in paths:
+        if p.status != 'return':
+            continue
+        stores = [(i, e) for i, e in enumerate(p.events) if e.kind == 'store' and e.target == slot]
+        mid = [i for i, e in enumerate(p.events) if e.kind == 'yield' or (e.kind == 'call' and e.callee in ('fn', 'func', 'f'))]
+        if not mid:
+            continue
+        before = [x for x in stores if x[0] < mid[0]]
+        after = [x for x in stores if x[0] > mid[-1]]
+        if not before:
+            continue       # pass-through path (already entered)
+        if not after:
+            run.violation('C20.R3', fi, '%s save/restore' % fi.name, 'the previous %s is not restored after the body' % what)
+            return
+        last = after[-1][1]
+        v = last.value.text if last.value is not None else ''
+        reads_slot = slot.rsplit('.', 1)[0] in v or v in ('False', 'None')
+        if not reads_slot:
+            run.violation('C20.R3', fi, '%s save/restore' % fi.name, 'the value restored (%s) is not the previous %s' % (v[:40], what))
+            return
+        if not _in_finally(last.node):
+            unknown = 'restore of %s is not syntactically inside a finally block (moved into a helper?)' % slot
+            continue
+        okp += 1
+    if not okp:
+        if unknown:
+            raise AnalysisError('%s: %s' % (fi.qualname, unknown))
+        run.violation('C20.R3', fi, '%s save/restore' % fi.name, 'the previous %s is not restored in a finally block' % what)
+    else:
+        run.ok('C20.R3', fi, '%s: old = slot; slot = new; try: body finally: slot = old' % fi.name)
+
+
 def r3(repo, run):
     add = repo.func('Builder.add_source')
-    parses = [c for c in calls_in(add.node) if norm(c.func) in ('yaml.parse', 'parse')]
-    if len(parses) != 1:
+    paths = tr.paths_of(repo, add, no_inline={'parse', 'get_lookup_dirs'}, follow_exceptions=False)
+    n = 0
+    verdicts = set()
+    for p in paths:
+        ps = [(i, e) for i, e in enumerate(p.events) if e.kind == 'call' and e.callee in ('yaml.parse', 'parse')]
+        if not ps:
+            continue
+        n += 1
+        for i, e in ps:
+            if len(e.args) < 2 or e.args[1].text != 'self':
+                verdicts.add(('bad', 'documents are parsed without passing the builder: the module-global parse context (shared by all threads) is used'))
+            else:
+                verdicts.add(('ok', 'yaml.parse(source, self): parsed with this builder as context'))
+            stack = tr.with_stack_at(p, i)
+            for cm in ('default_safe_flag', 'default_filename'):
+                inside = [w for w in stack if w.startswith('ConfigNode.%s(' % cm)]
+                if not inside:
+                    verdicts.add(('bad', 'parsing is not wrapped in ConfigNode.%s: nodes pick up whatever default another build left behind' % cm))
+                elif cm == 'default_filename' and inside[-1] != 'ConfigNode.default_filename(self._current_file)':
+                    verdicts.add(('bad', 'the installed file name (%s) is not this builder\'s current file' % inside[-1][:60]))
+                else:
+                    verdicts.add(('ok', 'with ConfigNode.%s(...) installed around parsing' % cm))
+            resets = [x for x in p.events[i:] if x.kind == 'store' and x.target == 'self._current_file' and x.value is not None and x.value.const is None]
+            if not resets:
+                verdicts.add(('bad', 'the builder\'s current file is not reset after parsing'))
+            elif not _in_finally(resets[-1].node):
+                verdicts.add(('bad', 'the builder\'s current file is not reset in a finally block'))
+            else:
+                verdicts.add(('ok', 'finally: self._current_file = None'))
+    if not n:
         raise AnalysisError('Builder.add_source: yaml.parse call not recognised')
-    c = parses[0]
-    if len(c.args) < 2 or norm(c.args[1]) != 'self':
-        run.violation('C20.R3', add, unparse(c), 'documents are parsed without passing the builder: the module-global parse context (shared by all threads) is used', node=c)
-    else:
-        run.ok('C20.R3', (add.file, c.lineno, add.qualname), unparse(c), 'parsed with this builder as context')
-    for cm in ('default_safe_flag', 'default_filename'):
-        if inside_with_calling(c, cm):
-            run.ok('C20.R3', (add.file, c.lineno, add.qualname), 'with ConfigNode.%s(...)' % cm, 'installed around parsing')
-        else:
-            run.violation('C20.R3', add, 'with ConfigNode.%s(...)' % cm, 'parsing is not wrapped in ConfigNode.%s: nodes pick up whatever default another build left behind' % cm, node=c)
-    w = inside_with_calling(c, 'default_filename')
-    if w is not None:
-        arg = [it.context_expr for it in w.items if isinstance(it.context_expr, ast.Call) and it.context_expr.func.attr == 'default_filename'][0].args[0]
-        if norm(arg) != 'self._current_file':
-            run.violation('C20.R3', add, 'default_filename(%s)' % norm(arg), 'the installed file name is not this builder\'s current file')
-    tr = [s for s in add.node.body if isinstance(s, ast.Try) and s.finalbody and any(x is c for x in ast.walk(s))]
-    if not tr or not any(norm(s) == 'self._current_file = None' for s in tr[0].finalbody):
-        run.violation('C20.R3', add, 'finally: self._current_file = None', 'the builder\'s current file is not reset in a finally block')
-    else:
-        run.ok('C20.R3', (add.file, tr[0].lineno, add.qualname), 'finally: self._current_file = None')
-    for q, slot in (('ConfigNode.default_filename', 'ConfigNode._default_filename.value'), ('ConfigNode.default_safe_flag', 'ConfigNode._default_safe.value')):
-        fi = repo.func(q)
-        tr = [s for s in fi.node.body if isinstance(s, ast.Try)]
-        saved = [s for s in fi.node.body if isinstance(s, ast.Assign) and norm(s.value) == slot and isinstance(s.targets[0], ast.Name)]
-        okr = tr and saved and any(norm(s) == '%s = %s' % (slot, saved[0].targets[0].id) for s in tr[0].finalbody) and any(isinstance(b, ast.Expr) and isinstance(b.value, ast.Yield) for b in tr[0].body)
-        if okr:
-            run.ok('C20.R3', fi, '%s: old = slot; slot = new; try: yield finally: slot = old' % fi.name)
-        else:
-            run.violation('C20.R3', fi, '%s save/restore' % fi.name, 'the previous default is not restored in a finally block')
+    for v in sorted(verdicts):
+        (run.ok if v[0] == 'ok' else run.violation)('C20.R3', add, 'add_source', v[1])
+    _save_restore(repo, run, repo.func('ConfigNode.default_filename'), 'ConfigNode._default_filename.value', 'default file name')
+    _save_restore(repo, run, repo.func('ConfigNode.default_safe_flag'), 'ConfigNode._default_safe.value', 'default safe flag')
     ae = repo.func('errors.api_entry').nested().get('impl')
     if ae is None:
         raise AnalysisError('api_entry.impl not found')
-    tr = [s for s in ae.node.body if isinstance(s, ast.Try)]
-    sets = [s for s in ae.node.body if isinstance(s, ast.Assign) and norm(s) == '_api_entered.value = True']
-    if not tr or not sets or not any(norm(s) == '_api_entered.value = False' for s in tr[0].finalbody) or sets[0].lineno > tr[0].lineno:
-        run.violation('C20.R3', ae, 'api_entry marker', 'the API-entry marker is not set before the call and cleared in finally')
-    else:
-        run.ok('C20.R3', ae, '_api_entered.value = True; try: ... finally: _api_entered.value = False')
+    _save_restore(repo, run, ae, '_api_entered.value', 'API-entry marker')
     init = repo.func('Builder.__init__')
-    attrs = {norm(s.targets[0]) for s in walk_no_nested(init.node) if isinstance(s, ast.Assign)}
+    attrs = set()
+    for p in tr.paths_of(repo, init, follow_exceptions=False):
+        st = {e.target for e in p.events if e.kind == 'store'}
+        attrs = st if not attrs else (attrs & st)
     cls_attrs = set(repo.classes['Builder'].attrs)
     if not {'self._current_file', 'self._current_stage', 'self.stages'} <= attrs or {'_current_file', '_current_stage', 'stages'} & cls_attrs:
         run.violation('C20.R3', init, 'Builder per-instance state', 'stages / _current_file / _current_stage are not plain instance attributes set in __init__')
     else:
         run.ok('C20.R3', init, 'Builder.stages/_current_file/_current_stage are instance attributes')
     pf = repo.func('yaml.parse')
-    gl = pf.nested().get('get_loader')
-    ld = [c for c in calls_in(pf.node) if norm(c.func) in ('yaml.load_all', 'yaml.load')]
-    if gl is None or not ld or norm(get_kw(ld[0], 'Loader') or ast.Constant(value=None)) != 'get_loader':
-        run.violation('C20.R3', pf, unparse(ld[0]) if ld else 'yaml.load_all', 'the loader is not created per parse by a local factory: loader <-> builder binding would be shared')
-    else:
-        sets_ctx = any(isinstance(s, ast.Assign) and norm(s.targets[0]) == 'loader.context' and norm(s.value) == 'context' for s in walk_no_nested(gl.node))
-        makes = any(isinstance(s, ast.Assign) and norm(s.targets[0]) == 'loader' and isinstance(s.value, ast.Call) and norm(s.value.func) == 'AwesomeyamlLoader' for s in walk_no_nested(gl.node))
-        if sets_ctx and makes:
-            run.ok('C20.R3', gl, 'get_loader: loader = AwesomeyamlLoader(...); loader.context = context', 'context bound per loader instance')
-        else:
-            run.violation('C20.R3', gl, 'get_loader', 'the parse context is not bound to the loader *instance*')
+    pp = tr.paths_of(repo, pf, no_inline={'_encode_all_metadata', 'global_ctx'}, follow_exceptions=False)
+    loads = [(p, e) for p in pp for e in p.events if e.kind == 'call' and e.callee in ('yaml.load_all', 'yaml.load')]
+    if not loads:
+        raise AnalysisError('yaml.parse: yaml.load_all call not recognised')
+    verdicts = set()
+    for p, e in loads:
+        ld = e.kw.get('Loader') or (e.args[1] if len(e.args) > 1 else None)
+        if ld is None or ld.closure is None:
+            verdicts.add(('bad', 'the loader is not created per parse by a local factory: loader <-> builder binding would be shared'))
+            continue
+        t, cps = Tracer(repo, follow_exceptions=False).trace_closure(ld)
+        for q in cps:
+            mk = [x for x in q.events if x.kind == 'call' and x.callee == 'AwesomeyamlLoader']
+            if q.status != 'return' or len(mk) != 1 or q.ret is None or q.ret.text != mk[0].result.text:
+                verdicts.add(('bad', 'the loader factory does not return a fresh AwesomeyamlLoader'))
+                continue
+            L = mk[0].result.text
+            ctxs = [x for x in q.events if x.kind == 'store' and x.target == L + '.context']
+            stack = tr.with_stack_at(p, tr.index_of(p, e))
+            entered = {'entered(%s)' % w for w in stack}
+            if len(ctxs) == 1 and ctxs[0].value is not None and (ctxs[0].value.text in entered or ctxs[0].value.text in ('filename_or_builder', 'context')):
+                verdicts.add(('ok', 'loader = AwesomeyamlLoader(...); loader.context = context: context bound per loader instance'))
+            else:
+                verdicts.add(('bad', 'the parse context is not bound to the loader *instance*'))
+    for v in sorted(verdicts):
+        (run.ok if v[0] == 'ok' else run.violation)('C20.R3', pf, 'loader factory', v[1])
     if 'context' in repo.classes['AwesomeyamlLoader'].attrs:
         run.violation('C20.R3', ('awesomeyaml/yaml.py', repo.classes['AwesomeyamlLoader'].node.lineno, 'AwesomeyamlLoader'), 'AwesomeyamlLoader.context', 'class-level context attribute: shared by all parses in all threads')
 
